@@ -50,7 +50,7 @@ theorem KeyP.modStreamW' {k : Nat} {f : Stream → Stream × List String}
     intro y hy hk
     simp only [Streams.wake, Streams.setStream, Store.set, List.mem_map] at hy
     obtain ⟨x, hx, rfl⟩ := hy
-    by_cases he : (x.key == (f st).key) = true
+    by_cases he : (x.key == (f st).1.key) = true
     · simp only [he, if_true] at hk ⊢
       have hm := get?_mem hget
       exact (hf st).2 (h st hm.1 ((hf st).1.symm.trans hk))
@@ -136,10 +136,11 @@ theorem KeyP.of_fst_eq {α : Type} {p : Streams × α} {t' : Streams} {r : α} (
 end
 
 /-- what the predicates of this file look at -/
-def CoreEq (x y : Stream) : Prop :=
-  x.sendFlow = y.sendFlow ∧ x.state = y.state ∧ x.bufferedSendData = y.bufferedSendData
+@[reducible] def CoreEq (x y : Stream) : Prop :=
+  x.sendFlow = y.sendFlow ∧ x.state = y.state ∧ x.bufferedSendData = y.bufferedSendData ∧
+  x.requestedSendCapacity = y.requestedSendCapacity
 /-- `P` looks at nothing else -/
-def CoreP (P : Stream → Prop) : Prop := ∀ x y, CoreEq x y → P x → P y
+@[reducible] def CoreP (P : Stream → Prop) : Prop := ∀ x y, CoreEq x y → P x → P y
 
 theorem KeyP.modStreamC {id k : Nat} {P : Stream → Prop} {t : Streams} {f : Stream → Stream} (hP : CoreP P)
     (hf : ∀ x, (f x).key = x.key ∧ CoreEq x (f x)) (h : KeyP id P t) : KeyP id P (t.modStream k f) :=
@@ -151,17 +152,17 @@ theorem KeyP.modStreamWC {id k : Nat} {P : Stream → Prop} {t : Streams} {f : S
 
 theorem notifySend_core (x : Stream) : x.notifySend.1.key = x.key ∧ CoreEq x x.notifySend.1 := by
   unfold Stream.notifySend
-  cases x.sendTask <;> dsimp only <;> split <;> exact ⟨rfl, rfl, rfl, rfl⟩
+  cases x.sendTask <;> dsimp only <;> split <;> exact ⟨rfl, rfl, rfl, rfl, rfl⟩
 theorem notifyRecv_core (x : Stream) : x.notifyRecv.1.key = x.key ∧ CoreEq x x.notifyRecv.1 := by
-  unfold Stream.notifyRecv; split <;> exact ⟨rfl, rfl, rfl, rfl⟩
+  unfold Stream.notifyRecv; split <;> exact ⟨rfl, rfl, rfl, rfl, rfl⟩
 theorem notifyPush_core (x : Stream) : x.notifyPush.1.key = x.key ∧ CoreEq x x.notifyPush.1 := by
-  unfold Stream.notifyPush; split <;> exact ⟨rfl, rfl, rfl, rfl⟩
+  unfold Stream.notifyPush; split <;> exact ⟨rfl, rfl, rfl, rfl, rfl⟩
 
 /-- side condition of `KeyP.modStreamC`: the update touches neither key nor send flow, state, buffered -/
 syntax "keypf" : tactic
 macro_rules | `(tactic| keypf) => `(tactic| first
-  | (intro _; exact ⟨rfl, rfl, rfl, rfl⟩)
-  | (intro x; cases ‹QName› <;> exact ⟨rfl, rfl, rfl, rfl⟩)
+  | (intro _; exact ⟨rfl, rfl, rfl, rfl, rfl⟩)
+  | (intro x; cases ‹QName› <;> exact ⟨rfl, rfl, rfl, rfl, rfl⟩)
   | exact notifySend_core
   | exact notifyRecv_core
   | exact notifyPush_core)
@@ -210,5 +211,158 @@ theorem KeyP.scheduleSend (h : KeyP id P t) (k : Nat) : KeyP id P (t.scheduleSen
 macro_rules | `(tactic| keyp_peel) => `(tactic| with_reducible apply KeyP.scheduleSend)
 
 end
+
+-- ===================================================================== cold streams stay cold
+
+theorem coreP_quiet : CoreP QuietSt := by
+  intro x y h hx
+  unfold QuietSt at *
+  rw [← h.2.1, ← h.2.2.1]; exact hx
+
+theorem coreP_cold : CoreP ColdSt := by
+  intro x y h hx
+  unfold ColdSt at *
+  exact ⟨by rw [← h.1]; exact hx.1, coreP_quiet x y h hx.2⟩
+
+/-- `try_assign_capacity` (on any stream) gives nothing to a cold stream -/
+theorem KeyP.tryAssignCapacity_cold {id : Nat} {t : Streams} (h : KeyP id ColdSt t) (k : Nat) :
+    KeyP id ColdSt (t.tryAssignCapacity k) := by
+  have hP := coreP_cold
+  by_cases hk : k = id
+  · subst hk
+    -- the guard `!is_send_streaming && buffered == 0` returns at once
+    cases hget : t.store.get? k with
+    | none =>
+      have hb : t.stream k = { key := k, id := 0 } := by unfold Streams.stream; rw [hget]; rfl
+      unfold Streams.tryAssignCapacity
+      dsimp only
+      split
+      · exact h
+      split
+      · exact h
+      rw [hb]
+      split
+      · exact h
+      · rename_i hc; exact absurd rfl hc
+    | some st =>
+      have hm := get?_mem hget
+      have hc := h st hm.1 hm.2
+      unfold Streams.tryAssignCapacity
+      dsimp only
+      split
+      · exact h
+      split
+      · exact h
+      rw [stream_of_get hget]
+      split
+      · exact h
+      · rename_i hne
+        exfalso; apply hne
+        rw [hc.2.1, hc.2.2]; rfl
+  · -- another stream: only entries with key `k` are touched
+    have hother : ∀ (f : Stream → Stream × List String), (∀ x, (f x).1.key = x.key) →
+        ∀ {u : Streams}, KeyP id ColdSt u → KeyP id ColdSt (u.modStreamW k f) := by
+      intro f hf u hu
+      unfold Streams.modStreamW
+      split
+      · rename_i st hget
+        intro y hy hyk
+        simp only [Streams.wake, Streams.setStream, Store.set, List.mem_map] at hy
+        obtain ⟨x, hx, rfl⟩ := hy
+        by_cases he : (x.key == (f st).1.key) = true
+        · exfalso
+          simp only [he, if_true] at hyk
+          exact hk ((get?_mem hget).2.symm.trans ((hf st).symm.trans hyk))
+        · simp only [he] at hyk ⊢
+          exact hu x hx hyk
+      · exact hu.panic _
+    unfold Streams.tryAssignCapacity
+    dsimp only
+    split
+    · exact h
+    split
+    · exact h
+    split
+    · exact h
+    generalize hS1 : (if _ > 0 then _ else t) = S1
+    have hS : KeyP id ColdSt S1 := by
+      subst hS1
+      split
+      · exact KeyP.modPrio (hother _ (fun x => (assignCapacity_kf x _ _).1) h) _
+      · exact h
+    clear hS1
+    keyp_auto
+
+theorem KeyP.assignConnectionCapacityLoop_cold {id : Nat} (fuel : Nat) :
+    ∀ {t : Streams}, KeyP id ColdSt t → KeyP id ColdSt (Streams.assignConnectionCapacityLoop fuel t) := by
+  have hP := coreP_cold
+  induction fuel with
+  | zero => intro t h; exact h
+  | succ n ih =>
+    intro t h
+    unfold Streams.assignConnectionCapacityLoop
+    dsimp only
+    repeat' first
+      | with_reducible assumption
+      | with_reducible apply KeyP.tryAssignCapacity_cold
+      | (guard_not_mk; keyp_peel) | (guard_mk; keyp_peel) | split | dsimp only
+
+theorem KeyP.vacuous {id : Nat} {P : Stream → Prop} {t : Streams} (h : t.store.get? id = none) : KeyP id P t := by
+  intro y hy hk
+  unfold Store.get? at h
+  have := List.find?_eq_none.1 h y hy
+  simp [hk] at this
+
+/-- giving back everything a quiet stream holds makes it cold -/
+theorem giveBack_cold {t : Streams} (h : SafeInv t) {id : Nat} {st : Stream} (hget : t.store.get? id = some st)
+    (hq : QuietSt st) : KeyP id ColdSt (giveBack t id st.sendFlow.available.asSize) := by
+  have hm := get?_mem hget
+  have hf := flOk_claim (h.st st hm.1) (Nat.le_refl st.sendFlow.available.asSize)
+  have h0 := (h.st st hm.1).av0
+  intro y hy hk
+  have hslab : (giveBack t id st.sendFlow.available.asSize).store.slab =
+      (t.store.set { st with sendFlow := (st.sendFlow.claimCapacity st.sendFlow.available.asSize).1 }).slab := by
+    unfold giveBack Streams.modStream; rw [hget]; rfl
+  rw [hslab] at hy
+  simp only [Store.set, List.mem_map] at hy
+  obtain ⟨x, hx, rfl⟩ := hy
+  by_cases he : (x.key == st.key) = true
+  · simp only [he, if_true]
+    refine ⟨?_, hq⟩
+    show (st.sendFlow.claimCapacity st.sendFlow.available.asSize).1.available.val = 0
+    rw [hf.2.1, asSize_eq]; omega
+  · exfalso
+    simp only [he] at hk
+    simp only [beq_iff_eq] at he
+    exact he (hk.trans hm.2.symm)
+
+/-- **`reclaim_all_capacity` leaves a quiet stream cold** -/
+theorem reclaimAll_cold {t : Streams} (h : SafeInv t) {id : Nat} (hq : KeyP id QuietSt t) :
+    KeyP id ColdSt (t.reclaimAllCapacity id) := by
+  cases hget : t.store.get? id with
+  | none =>
+    have hb : t.stream id = { key := id, id := 0 } := by unfold Streams.stream; rw [hget]; rfl
+    unfold Streams.reclaimAllCapacity
+    dsimp only
+    rw [hb]
+    split
+    · rename_i hpos
+      exact absurd hpos (Nat.lt_irrefl 0)
+    · exact KeyP.vacuous hget
+  | some st =>
+    have hm := get?_mem hget
+    by_cases hpos : st.sendFlow.available.asSize > 0
+    · have he := reclaimAllCapacity_eq t id (by rw [stream_of_get hget]; exact hpos)
+      rw [he, stream_of_get hget]
+      exact KeyP.assignConnectionCapacityLoop_cold _ (giveBack_cold h hget (hq st hm.1 hm.2))
+    · unfold Streams.reclaimAllCapacity
+      dsimp only
+      rw [stream_of_get hget, if_neg hpos]
+      intro y hy hk
+      have : y = st := key_inj h.keys.1 hy hm.1 (hk.trans hm.2.symm)
+      subst this
+      have h0 := (h.st y hy).av0
+      rw [asSize_eq] at hpos
+      exact ⟨by omega, hq y hy hk⟩
 
 end H2V.Lemmas.ConnFlowP
